@@ -34,6 +34,12 @@ Inner ==
   \* instance of '-f(y, y)' exactly when v = v2
   {<<[pkg |-> "p", body |-> <<Call(f, <<W(Call(f, <<v, Lit(1)>>)), W(Call(g, <<v2>>))>>)>>], <<Mk("lit2", f, g), Mk("dup", f, "z")>>>> :
       f \in Atoms, g \in Atoms, v \in Leaves, v2 \in Leaves}
+  \* ... mirrored: the rewritten call is the SECOND argument, so the repeated metavariable is bound by code of the
+  \* original file (resolved names) and compared with code that the first change produced
+  \cup {<<[pkg |-> "p", body |-> <<Call(f, <<W(Call(g, <<v2>>)), W(Call(f, <<v, Lit(1)>>))>>)>>], <<Mk("lit2", f, g), Mk("dup", f, "z")>>>> :
+      f \in Atoms, g \in Atoms, v \in Leaves, v2 \in Leaves}
+  \cup {<<[pkg |-> "q", body |-> <<Call(f, <<W(Call("z", <<v2>>)), W(Call(g, <<v>>))>>), Call(g, <<Lit(2)>>)>>], <<Mk("ren", g, "z"), Mk("dup", f, g)>>>> :
+      f \in Atoms, g \in Atoms, v \in Leaves, v2 \in Leaves}
   \* f(w(g(v)), w(z(v2))): renaming g to z inside makes the two arguments the same code
   \cup {<<[pkg |-> "q", body |-> <<Call(f, <<W(Call(g, <<v>>)), W(Call("z", <<v2>>))>>), Call(g, <<Lit(2)>>)>>], <<Mk("ren", g, "z"), Mk("dup", f, g)>>>> :
       f \in Atoms, g \in Atoms, v \in Leaves, v2 \in Leaves}
